@@ -23,13 +23,15 @@ GOALS = {'quick': ['two port variables on one node', 'dotdot in a path',
                    'nested schema port', 'glob below a glob',
                    'inner glob child declared by a process',
                    '_path dictionary with the empty path',
-                   'scalar port on a top-level variable'],
+                   'scalar port on a top-level variable',
+                   'port split by a plain dictionary'],
          'thorough': ['two port variables on one node', 'dotdot in a path',
                       '_path dictionary port', 'glob port', 'scalar port',
                       'nested schema port', 'glob below a glob',
                       'inner glob child declared by a process',
                       '_path dictionary with the empty path',
-                      'scalar port on a top-level variable']}
+                      'scalar port on a top-level variable',
+                      'port split by a plain dictionary']}
 STUBS = ['one process whose ports schema / topology are produced by a generator '
          'driven by solver-decided choices; it records the states of its first '
          'invocation and returns symbolic updates for every port variable',
@@ -50,7 +52,7 @@ OUTSIDE = "'**' ports, _reduce, ill-formed topologies (undeclared ports are " \
 
 PLAIN = [('A',), ('B',), ('A', 'inner'), ('..', 'A'), ('..', 'up', 'B'),
          ('A', '..', 'B'), ('B', 'inner', '..')]
-KINDS = ['dict', 'scalar', 'pathdict', 'glob', 'nested']
+KINDS = ['dict', 'scalar', 'pathdict', 'glob', 'nested', 'split']
 
 
 class P(Process):
@@ -230,6 +232,17 @@ def body(ctx, cfg):
             targets[(port, 'v', None)] = resolve(base, ren)
             targets[(port, 'u', None)] = base + ('u',)
             ctx.goal('_path dictionary port')
+        elif KINDS[kind] == 'split':
+            # a port split by a plain dictionary (no '_path'): every variable
+            # is wired on its own
+            schema[port] = {'v': {'_default': 0}, 'u': {'_default': 0}}
+            other = ('B', 'u') if w != ('B',) else ('A', 'u')
+            if resolve(parent, other) is None:
+                other = ('A', 'u')
+            topo[port] = {'v': w + ('v',), 'u': other}
+            targets[(port, 'v', None)] = base + ('v',)
+            targets[(port, 'u', None)] = resolve(parent, other)
+            ctx.goal('port split by a plain dictionary')
         elif KINDS[kind] == 'nested':
             # schema nested two levels under the port: port -> inner -> v
             schema[port] = {'inner': {'v': {'_default': 0}},
@@ -325,7 +338,8 @@ def body(ctx, cfg):
     kinds = '+'.join(sorted(set(
         'scalar' if isinstance(v, tuple) and k[1] is None else
         'glob' if k[2] is not None else
-        'pathdict' if isinstance(topo[k[0]], dict) else 'dict'
+        'pathdict' if isinstance(topo[k[0]], dict) and '_path' in topo[k[0]]
+        else 'split' if isinstance(topo[k[0]], dict) else 'dict'
         for k, v in targets.items()
         if list(targets.values()).count(v) > 1)))
     ctx.claim('C06.write', AND(write), sig='write-collision:' + kinds,
